@@ -25,6 +25,16 @@ CHECKS = {
         "note": ENGINE_NOTE,
         "technique": "TLA+ reference model evaluated by TLC on recorded failure-grid traces (code->spec trace validation)",
     },
+    "C03": {
+        "level": "model_checking",
+        "text": "Histories interleave a transactional session (start, CRUD, commit against an accepting or rejecting store, abort, end), a plain client and a snapshot "
+                "taker one call at a time. TLC validates calls inside the transaction with Database!Exec on the working catalog and requires the committed catalog to stay "
+                "byte-identical, requires a successful commit to publish exactly the working catalog and a failed commit / abort / end to publish nothing, requires plain "
+                "writes to fail while the transaction is open, and requires every retained snapshot (read-only transaction, earlier catalog, cursor), re-dumped after every "
+                "later step, to be identical. MCTxn checks SnapshotsImmutable, AllOrNothing and NoDirtyRead on Txn.tla.",
+        "note": ENGINE_NOTE + " Calls are interleaved one at a time (property text); snapshots are re-dumped through the exported catalog structures.",
+        "technique": "TLA+ transaction model (Txn.tla) checked by TLC; code->spec validation of recorded interleaved transaction histories with snapshot re-dumps",
+    },
     "C06": {
         "level": "model_checking",
         "text": "Random histories run on a FileStore with close/reopen points; every reload is recorded (state, index definitions and listings, complete change log, "
